@@ -31,6 +31,8 @@ func init() {
 			Trusted: commonTrusted,
 		},
 		Mutants: []Mutant{
+			{Name: "stray catch accepted inside a list (original defect)", File: "parse.go", Old: "\t\tswitch n.Type() {\n\t\tcase nodeEnd, nodeElse, nodeContent, nodeCatch:\n\t\t\tt.errorf(\"unexpected %s\", n)\n\t\t}\n\t\tlist.append(n)", New: "\t\tlist.append(n)", Rule: "C20.cases"},
+			{Name: "stray catch accepted at top level (original defect)", File: "parse.go", Old: "\t\tcase nodeEnd, nodeElse, nodeContent, nodeCatch:\n\t\t\tt.errorf(\"unexpected %s\", n)\n\t\tdefault:", New: "\t\tcase nodeEnd, nodeElse, nodeContent:\n\t\t\tt.errorf(\"unexpected %s\", n)\n\t\tdefault:", Rule: "C20.cases"},
 			{Name: "nil test centralised in visitNode, typed-nil catch variable slips through (agent seed C20/1, reduced)", File: "utils/visitor.go", Old: "\t\tif tryNode.Catch.Err != nil {\n\t\t\tvc.visitNode(tryNode.Catch.Err)\n\t\t}\n", New: "\t\tvc.visitNode(tryNode.Catch.Err)\n", Rule: "C20.nil"},
 			{Name: "equivalent: nil test centralised in visitNode for interface-typed children", File: "utils/visitor.go", Old: "func (vc VisitorContext) visitNode(node jet.Node) {\n", New: "func (vc VisitorContext) visitNode(node jet.Node) {\n\tif node == nil {\n\t\treturn\n\t}\n", Rule: "-"},
 			{Name: "Set and Expression of a branch visited as alternatives (agent seed C20/2)", File: "utils/visitor.go", Old: "\tif branchNode.Set != nil {\n\t\tvc.visitNode(branchNode.Set)\n\t}\n\n\tif branchNode.Expression != nil {", New: "\tif branchNode.Set != nil {\n\t\tvc.visitNode(branchNode.Set)\n\t} else if branchNode.Expression != nil {", Rule: "C20.fields"},
@@ -209,6 +211,7 @@ func runC20(c *an.Ctx) {
 		return true
 	})
 	c20noShare(c)
+	c20markers(c)
 	c.Check(okWalk, "C20.walk", "utils.Walk/start", walk.Pos(), "Walk hands t.Root to Visitor.Visit", "Walk does not start the traversal at t.Root through Visitor.Visit")
 }
 
@@ -961,6 +964,117 @@ func (r *c20) collect(h *an.Fn, prefix string, guards []string, seen map[*an.Fn]
 	}
 	_ = rangeOf
 	return out
+}
+
+// c20markers: the parser's internal marker nodes ({{end}}, {{else}}, {{content}}, {{catch}} — the
+// unexported NodeType constants) terminate a list, they are never part of one: utils cannot even name
+// their types and the visitor panics on them.  Wherever a node that came from textOrAction() is appended
+// to a list, each marker type is known to be excluded on that path (the terminator loop of itemList does
+// not establish that: it only knows the terminators of the construct being parsed).
+func c20markers(c *an.Ctx) {
+	p := c.P
+	var markers []string
+	sc := p.Jet.Types.Scope()
+	for _, name := range sc.Names() {
+		if k, ok := sc.Lookup(name).(*types.Const); ok && !k.Exported() && an.TypeName(k.Type()) == "jet.NodeType" {
+			markers = append(markers, name)
+		}
+	}
+	// only the constants some node is actually built with (beginExpressions/endExpressions delimit a range of
+	// the enumeration, no node has them)
+	built := map[string]bool{}
+	for _, file := range p.Jet.Syntax {
+		ast.Inspect(file, func(n ast.Node) bool {
+			if kv, ok := n.(*ast.KeyValueExpr); ok {
+				if k, ok := kv.Key.(*ast.Ident); ok && k.Name == "NodeType" {
+					if v, ok := kv.Value.(*ast.Ident); ok {
+						built[v.Name] = true
+					}
+				}
+			}
+			return true
+		})
+	}
+	kept := markers[:0]
+	for _, m := range markers {
+		if built[m] {
+			kept = append(kept, m)
+		}
+	}
+	markers = kept
+	sort.Strings(markers)
+	if len(markers) == 0 {
+		c.OK("C20.cases", "parser/markers-stay-out", p.Jet.Syntax[0].Pos(), "the parser has no internal marker node types")
+		return
+	}
+	nSites := 0
+	for _, f := range p.Units() {
+		if f.Pkg != p.Jet || f.Body == nil {
+			continue
+		}
+		info := f.Info()
+		var sites []ast.Node
+		argOf := map[ast.Node]*ast.Ident{}
+		for _, call := range p.CallsIn(f, "(*jet.ListNode).append") {
+			if len(call.Args) != 1 {
+				continue
+			}
+			id, ok := an.Unparen(call.Args[0]).(*ast.Ident)
+			if !ok {
+				continue
+			}
+			fromAny := false
+			for _, d := range an.LocalDefs(f, an.ObjOf(info, id)) {
+				if dc, ok := an.Unparen(d).(*ast.CallExpr); ok && d != nil && an.CalleeName(info, dc) == "(*jet.Template).textOrAction" {
+					fromAny = true
+				}
+			}
+			if fromAny {
+				sites = append(sites, call)
+				argOf[call] = id
+			}
+		}
+		if len(sites) == 0 {
+			continue
+		}
+		c.FnsAnalysed[f.Name] = true
+		pr := p.ProbeFn(f, sites, an.Hooks{})
+		c.States += pr.X.Visited
+		for _, s := range sites {
+			nSites++
+			name := an.RoleOf(an.ObjOf(info, argOf[s]))
+			var open []string
+			if len(pr.At[s]) == 0 {
+				open = append(open, "(append not reached by the exploration)")
+			}
+			for _, m := range markers {
+				for _, st := range pr.At[s] {
+					excluded := false
+					for k, v := range st.Facts {
+						pk := strings.ReplaceAll(an.PlainKey(k), " ", "")
+						if !v && (pk == name+".Type()=="+m || pk == m+"=="+name+".Type()") {
+							excluded = true
+						}
+						if v && (pk == name+".Type()!="+m || pk == m+"!="+name+".Type()") {
+							excluded = true
+						}
+					}
+					if !excluded {
+						open = append(open, m)
+						break
+					}
+				}
+			}
+			key := f.Name + "/markers-stay-out"
+			if len(open) == 0 {
+				c.OK("C20.cases", key, s.Pos(), "every marker type (%s) is excluded where the node is appended", strings.Join(markers, ", "))
+			} else {
+				c.Bad("C20.cases", key, s.Pos(), nil, "%s appends the node returned by textOrAction() to a list on a path where it can still be a marker node (%s): a stray {{%s}} is accepted by the parser and ends up in the tree, where utils.Walk panics on it",
+					f.Name, strings.Join(open, ", "), strings.TrimPrefix(strings.ToLower(open[0]), "node"))
+			}
+		}
+	}
+	c.Expect("C20.cases", "appends of a parsed text-or-action node to a list", nSites, 2)
 }
 
 // c20noShare: "each exactly once" needs a tree — no node reachable through two child fields.  The one
